@@ -1,6 +1,6 @@
 """C13 — Applying calibration: composition, invalid-gain handling and invertibility (correspondence + search).
 
-Three streams (v4 and invert also reopen the same store with preselect=... and compare with the fully opened data set), all driven by explicit JSON-able configurations (a replay file carries the whole configuration):
+Four streams (v4 and invert also reopen the same store with preselect=... and compare with the fully opened data set), all driven by explicit JSON-able configurations (a replay file carries the whole configuration):
 
 direct   katdal.applycal.calc_correction on a SensorCache holding generated `Calibration/Corrections/...` sensors
          (ndarray and CategoricalData forms), then the three numba kernels through dask elemwise exactly as
@@ -15,6 +15,10 @@ v4       full data sets (fixtures.v4.build_v4 + a 'cal' stream in telstate, B op
          vis / weights / raw flags under random selections and second-stage indexing are compared for equality.
          The same store reopened with preselect={'channels','dumps'} must equal the fully opened data set on the
          loaded dumps/channels and the spec on the loaded subset.
+sol      cal SOLUTIONS (zero / NaN / inf / numbers, varying in time, per target) through katdal's own
+         calc_gain_correction / calc_bandpass_correction / calc_delay_correction, the resulting correction sensors
+         through calc_correction and the kernels; compared with the spec on the corrections the solutions call for
+         (harness derivation cross-checked against Model/ApplycalSol.v, wire 131).
 invert   v4 data sets whose stored visibilities were corrupted by known complex per-input gains, delays and
          bandpasses, same solutions at every dump: corrected vis within REL_TOL of the clean ones (the one clause of
          the property that says "to within single-precision rounding").
@@ -31,24 +35,42 @@ RULE = ('direct: 1-4 cal products from 1-2 streams (own channel counts and centr
         'corrections that are Gaussian dyadics (unit-group x 2^e with free weights, or small Gaussian integers/halves '
         'with weights matched so that the float32 division is exact), NaN and zero at random positions, ndarray or '
         'categorical sensors, shuffled/duplicated corrprod pairs, random chunkings on all three axes, a second '
-        'chunking and a random loaded subset; v4: real positive power-of-two G (with or without channel axis), '
+        'chunking and a random loaded subset; in half of the cases the REQUEST also names products without correction '
+        'sensors (for all inputs or for some of the inputs in use) before / between / after the present ones and '
+        'repeated names, lenient (skip_missing_products) or strict; '
+        'sol: solutions (zero / NaN / inf / powers of two; constant, varying in time, a zero at one solution time, '
+        'dead inputs and channels, holes, all invalid, none at all; with or without channel axis; 1-3 targets) '
+        'through calc_gain_correction / calc_bandpass_correction / calc_delay_correction, calc_correction and the '
+        'kernels; v4: real positive power-of-two G / GPHASE / GAMP_PHASE (with or without channel axis, 1-3 targets), '
         'B (one value per input and solution time, NaN band edges / inputs / single solutions; single or split '
         'into 2-3 parts whose solution times are random subsets of a common set, parts absent altogether), '
-        'K zero/NaN solutions through katdal.open-equivalent data sets, shuffled bls_ordering, random selections; '
-        'the corrections every input must get are derived from the SOLUTIONS by the harness and the spec is '
-        'evaluated on those; every third case has a multi-part B with a part lacking a solution another part has, '
-        'every third is reopened with preselect on channels (+dumps), 60% of the rest with preselect (channels '
-        '[a,b), dumps [a,b) or both), and compared with the fully opened one on the same dumps/channels; invert: complex '
-        'gains/delays/bandpasses, 75% also reopened with preselect.  A case is one configuration; non-trivial when '
-        'at least one factor is finite and not 1 and (direct, v4) at least one factor is NaN or two products '
-        'are combined; distinct by the whole configuration')
-ASSUMPTIONS = ['correction values are finite or NaN (infinite corrections are outside the model: inf*0 is NaN in IEEE)',
+        'K zero/NaN/inf solutions, zero solutions (dead input, dead cal channel, a zero at one solution time; forced '
+        'in every sixth case), infinite solutions, an optional l2 self-cal stream with its own channelisation / '
+        'antenna order (30%; possibly lacking an antenna), through katdal.open-equivalent data sets, shuffled '
+        'bls_ordering, random selections; the request is strict, lenient (all / default / a stream / bare types with '
+        'types lacking solutions before present ones / mixed / repeated; forced in two of six cases) or strict naming '
+        'a missing product; the corrections every input must get are derived from the SOLUTIONS by the harness and '
+        'the spec is evaluated on those over the products the REQUEST calls for; every sixth case has a multi-part B '
+        'with a part lacking a solution another part has, every sixth is reopened with preselect on channels '
+        '(+dumps), 60% of the rest with preselect (channels [a,b), dumps [a,b) or both), and compared with the fully '
+        'opened one on the same dumps/channels; invert: complex gains/delays/bandpasses, 75% also reopened with '
+        'preselect.  A case is one configuration; non-trivial when at least one factor is finite and not 1 and '
+        '(direct, v4) at least one factor is NaN or two products are combined; distinct by the whole configuration')
+ASSUMPTIONS = ['correction values are finite or NaN (infinite corrections are outside the model: inf*0 is NaN in IEEE); '
+               'infinite SOLUTIONS are inside (invalid)',
                'generated gains keep every complex64 product, |factor|^2 and the weight division exact in float32 '
                '(checked by the harness against a float64 evaluation); rounding is not verified',
-               'v4 stream: the model (tie) runs on the correction sensors read back from the data set; the spec '
-               '(property) runs on corrections derived by the harness from the solutions put into telstate, which is '
-               'exact only for the generated class (G constant in time per input, B constant over the band per input '
-               'and solution time, K delays 0/NaN); general interpolation in time/frequency is C14',
+               'v4 / sol streams: the spec (property) runs on corrections derived by the harness from the solutions '
+               '(exact part of the calculators: at a solution, beyond the ends, between equal solutions, NaN / inf / '
+               'zero structure; cross-checked against Model/ApplycalSol.v on every case); where the solutions only '
+               'determine "a non-zero number" (strictly between two different solutions) katdal\'s value must be a '
+               'finite non-zero number and the values of vis / weights it touches are not compared (flags are); '
+               'general interpolation in time/frequency is C14',
+               'the target of every dump (per-target interpolation of the self-cal products) is read from the data '
+               'set opened without applycal (with the same preselect): katdal aligns target changes with scan starts',
+               'the expansion of a request into <stream>.<type> names is the documented one (C14 verifies '
+               '_normalise_cal_products); a product is available when its stream has solutions for it and a solution '
+               'index for every antenna',
                'a preselected data set is generated only when every K/B product has a solution before the end of the '
                'loaded dumps (otherwise katdal has no sensor value and raises)',
                'invert stream tolerance: |corrected - clean| <= 2^-16 * (1 + number of products) * max(|clean|, 1) per component']
